@@ -269,6 +269,8 @@ mod = importlib.import_module(spec["module"])
 f = getattr(mod, spec["func"])
 assert hasattr(f, "py_func"), "JIT is not enabled in the replay process"
 def conv(a):
+    if isinstance(a, dict):
+        return np.array(a["array"], dtype=a["dtype"])
     if isinstance(a, list):
         return np.array(a, dtype=float)
     return a
@@ -304,5 +306,5 @@ def replay_compiled(args):
     if not line:
         return False, f"replay process failed: {r.stderr[-300:]}"
     res = json.loads(line[-1])
-    what = f"{args['module']}.{args['func']}{tuple(args['args'])}: compiled {res['compiled']} vs interpreter {res['interpreter']} ({args.get('detail', '')})"
+    what = f"{args['module']}.{args['func']}{tuple(str(a) for a in args['args'])}: compiled {res['compiled']} vs interpreter {res['interpreter']} ({args.get('detail', '')})"
     return (not res["same"]), what
